@@ -88,6 +88,22 @@ def run(c, facts, tier):
     defaults = find_all(comp.body, lambda x: x.get("k") == "call" and x["f"]["k"] == "path" and x["f"]["segs"][-1] == "default" and x["f"]["segs"][0] in codegen.MANAGERS)
     params_mgr = [p for p in comp.params if "Manager" in p[1]]
     c.ob("C15.no-state", comp.key, "a fresh manager per compile call", len(defaults) == 2 and not params_mgr, "managers created inside compile(): %s; passed in from outside: %s" % ([src(d) for d in defaults], params_mgr))
+    # ---------------------------------------------------------------- logging must not carry behaviour
+    PURE = {"len", "is_empty", "to_string", "clone", "as_ref", "as_str", "iter", "count", "as_slice", "display", "to_owned"}
+    nlog = 0
+    for fn in facts.nontest_fns():
+        for x in find_all(fn.body, lambda x: x.get("k") == "macro" and x["name"] in ("trace", "debug", "info", "warn", "error", "log")):
+            nlog += 1
+            eff = []
+            for a in x.get("args", [])[1:] if x.get("args") else []:
+                for n_ in find_all(a, lambda n_: n_.get("k") in ("call", "mcall", "assign", "macro", "closure")):
+                    if n_["k"] == "mcall" and n_["m"] in PURE:
+                        continue
+                    eff.append(src(n_)[:50])
+                if a.get("k") == "binary" and a["op"].endswith("=") and a["op"] not in ("==", "!=", "<=", ">="):
+                    eff.append(src(a)[:50])
+            c.ob("C15.no-state", fn.key, "log statement has no effect besides logging", not eff, "arguments of %s!: %s" % (x["name"], "pure" if not eff else "contain calls/assignments %s — evaluated only when that log level is enabled" % eff), nontrivial=False)
+    c.analysed["log_statements"] = nlog
     # ---------------------------------------------------------------- hash-order
     nh = 0
     for p, bd in sorted(m.bodies.items()):
